@@ -27,6 +27,7 @@ from .values import (
     SStr,
     SStub,
     SType,
+    SUndef,
     SUnion,
     Unsupported,
     pytype_name,
@@ -35,7 +36,52 @@ from .values import (
 _CMP = {"Lt": "<", "LtE": "<=", "Gt": ">", "GtE": ">=", "Eq": "==", "NotEq": "!="}
 
 
+# values fixed by the environment the checks assume (listed in every evidence file)
+_ENV_CONSTANTS = {"MAX_PASSWORD_SIZE": 4096}
 _MODULE_ALIASES = {"exc": "passlib/exc.py", "uh": "passlib/utils/handlers.py", "ifc": "passlib/ifc.py"}
+
+
+def _module_file(dotted):
+    import os
+
+    base = dotted.replace(".", "/")
+    for cand in (base + ".py", base + "/__init__.py"):
+        if os.path.exists(os.path.join(extract.REPO, cand)):
+            return cand
+    return None
+
+
+def _import_source(relpath, name):
+    """('name', file, original name) / ('module', file, None) if ``name`` is bound by an import of a repo module"""
+    tree, _ = extract.module_ast(relpath)
+    pkg = relpath.rsplit("/", 1)[0].replace("/", ".")
+    for st in ast.walk(tree):
+        if isinstance(st, ast.ImportFrom):
+            mod = st.module or ""
+            if st.level:
+                parts = pkg.split(".")
+                parts = parts[: len(parts) - (st.level - 1)]
+                mod = ".".join(parts + ([mod] if mod else []))
+            for a in st.names:
+                if (a.asname or a.name) == name:
+                    sub = _module_file(mod + "." + a.name)
+                    if sub is not None:
+                        return ("module", sub, None)
+                    f = _module_file(mod)
+                    if f is not None:
+                        return ("name", f, a.name)
+        elif isinstance(st, ast.Import):
+            for a in st.names:
+                if (a.asname or a.name.split(".")[0]) == name and a.asname:
+                    f = _module_file(a.name)
+                    if f is not None:
+                        return ("module", f, None)
+    return None
+
+
+def _depth_guard(it):
+    it._import_depth = getattr(it, "_import_depth", 0)
+    return it._import_depth < 8
 
 
 def _pow2_exp(m):
@@ -157,6 +203,8 @@ class OpsMixin:
     def truth(self, v):
         if isinstance(v, SUnion):
             v = self.resolve(v)
+        if isinstance(v, SUndef):
+            return z3.Bool(self.run.fresh("undefined"))
         if v is None:
             return False
         if isinstance(v, (bool, int, float, str, bytes, tuple)):
@@ -191,6 +239,11 @@ class OpsMixin:
         m = getattr(self, "ev_" + type(node).__name__, None)
         if m is None:
             raise Unsupported(f"expression {type(node).__name__} at line {getattr(node, 'lineno', self.lineno)}")
+        if self.spec and isinstance(node, (ast.Call, ast.Subscript, ast.BinOp, ast.Attribute, ast.Compare)) and not self.call_depth:
+            try:
+                return m(node, env)
+            except RaiseSig:
+                return SUndef()
         return m(node, env)
 
     def ev_Constant(self, node, env):
@@ -223,6 +276,8 @@ class OpsMixin:
             pass
         if name in _MODULE_ALIASES:
             return SModule(name, {"__file__": _MODULE_ALIASES[name]})
+        if name in _ENV_CONSTANTS:
+            return _ENV_CONSTANTS[name]
         raise Unsupported(f"unresolved name '{name}' (line {self.lineno})")
 
     def module_level(self, relpath, name):
@@ -248,7 +303,16 @@ class OpsMixin:
         try:
             return (self.lift_const(extract.module_constant(relpath, name)),)
         except (extract.ExtractError, extract.NotConstant):
-            return None
+            pass
+        # a name imported from another repository module: follow the import (closed world: /repo only)
+        src = _import_source(relpath, name)
+        if src is not None:
+            kind, target_file, orig = src
+            if kind == "module":
+                return (SModule(name, {"__file__": target_file}),)
+            if _depth_guard(self):
+                return self.module_level(target_file, orig)
+        return None
 
     def lift_const(self, v):
         if isinstance(v, list):
@@ -259,6 +323,8 @@ class OpsMixin:
             return SSet(sorted(v, key=repr))
         if isinstance(v, tuple):
             return tuple(self.lift_const(x) for x in v)
+        if isinstance(v, type):
+            return SType(v.__name__)
         return v
 
     def ev_Tuple(self, node, env):
@@ -547,6 +613,8 @@ class OpsMixin:
     def binop(self, op, a, b):
         a = self.resolve(a)
         b = self.resolve(b)
+        if isinstance(a, SUndef) or isinstance(b, SUndef):
+            return SUndef()
         if isinstance(a, SOpaque) or isinstance(b, SOpaque):
             return SOpaque("binop")
         if self.spec and (a is None or b is None):
@@ -747,6 +815,8 @@ class OpsMixin:
 
     def cmp_vals(self, sym, a, b):
         a, b = self.resolve(a), self.resolve(b)
+        if isinstance(a, SUndef) or isinstance(b, SUndef):
+            return SBool(z3.Bool(self.run.fresh("undefined")))
         num = (int, SInt, SBool, float)
         if isinstance(a, num) and isinstance(b, num):
             if isinstance(a, (int, float)) and isinstance(b, (int, float)):
@@ -827,6 +897,8 @@ class OpsMixin:
         return z3.If(d.v < 10 ** d.w, z3.IntVal(d.w), nd(d.v))
 
     def identity(self, a, b):
+        if isinstance(a, SUndef) or isinstance(b, SUndef):
+            return SBool(z3.Bool(self.run.fresh("undefined")))
         if isinstance(a, SUnion) and b is None:
             return self.wrap_bool(self.to_zbool(self.union_is(a, lambda v: v is None)))
         if isinstance(b, SUnion) and a is None:
@@ -893,6 +965,8 @@ class OpsMixin:
     # ------------------------------------------------------------------ attribute access
     def getattr_value(self, obj, attr):
         obj = self.resolve(obj)
+        if isinstance(obj, SUndef):
+            return obj
         if isinstance(obj, SObj):
             return self.obj_getattr(obj, attr)
         if isinstance(obj, SModule):
@@ -1036,6 +1110,8 @@ class OpsMixin:
 
     def call_value(self, fn, args, kwargs):
         fn = self.resolve(fn)
+        if isinstance(fn, SUndef):
+            return fn
         if isinstance(fn, SStub):
             return fn.fn(self, list(args), dict(kwargs))
         if isinstance(fn, SClosure):
